@@ -1470,7 +1470,7 @@ class FuncEmitter:
             elif isinstance(v, dict):
                 for x in v.values():
                     locals_in(x, acc)
-        PURE = ('add', 'sub', 'mul', 'and', 'or', 'xor', 'shl', 'lshr', 'ashr', 'icmp', 'zext', 'sext', 'trunc')
+        PURE = ('add', 'sub', 'mul', 'and', 'or', 'xor', 'shl', 'lshr', 'ashr', 'icmp', 'zext', 'sext', 'trunc', 'getelementptr', 'bitcast')
         shifts = set(i['dest'] for bn, ins in parsed for i in ins if i['op'] in ('shl', 'lshr', 'ashr'))
         uses = {}           # local -> [(user op, user dest, is-select-arm)]
         for bn, ins in parsed:
@@ -1490,7 +1490,7 @@ class FuncEmitter:
                     for n in acc:
                         uses.setdefault(n, []).append((i['op'] if i['op'] in PURE else 'other', i.get('dest')))
         guarded = set(n for n in uses)
-        changed = bool(shifts)
+        changed = True
         while changed:
             changed = False
             for n in list(guarded):
@@ -1499,6 +1499,12 @@ class FuncEmitter:
                     guarded.discard(n)
                     changed = True
         self.spec_shift = shifts & guarded
+        self.spec_vals = set(guarded)      # values that only ever reach select arms: speculated, poison is harmless
+        # ... and values with at least one such use: evidence that the instruction was hoisted above the test that
+        # guards its other uses (`it + 1' computed before `it != end' is known)
+        for n, us in uses.items():
+            if any(k == 'arm' or (k != 'other' and dd in guarded) for k, dd in us):
+                self.spec_vals.add(n)
         self.used_locals = set(uses)
         # emit
         for bn, ins in parsed:
@@ -1597,7 +1603,7 @@ class FuncEmitter:
                     ct, cnt = p.typed_value()
                     if p.accept(','):
                         p.skip_attrs()
-            I.update(t=t, cnt=cnt, rtype=PTR(t))
+            I.update(t=t, cnt=cnt, cnt_t=(ct if cnt is not None else None), rtype=PTR(t))
         elif op == 'load':
             p.skip_attrs()
             t = p.type()
@@ -1923,7 +1929,12 @@ class FuncEmitter:
                     self.decls.append('  %s %s[%d];' % (E.ctype(t), st, n))
                     self.decls.append('  %s %s = &%s[0];' % (E.ctype(PTR(t)), D, st))
             else:
-                raise Unsupported("dynamic alloca")
+                # variable-length array: heap object of the requested size (never released; the stacksave /
+                # stackrestore pair around it is a no-op here)
+                self.decls.append('  %s %s;' % (E.ctype(PTR(t)), D))
+                cnt = self.val(I.get('cnt_t') or INT(64), I['cnt'])
+                c.append('%s = (%s)malloc(sizeof(%s) * (size_t)(%s));' % (D, E.ctype(PTR(t)), E.ctype(t), cnt))
+                c.append('VP_ASSUME(%s != 0);' % D)
         elif op == 'load':
             self.nn(I['a'])
             c.append('%s = *%s;' % (D, self.val(I['pt'], I['a'])))
@@ -1959,7 +1970,9 @@ class FuncEmitter:
             # constant non-zero offset or member access: the base must be a real object;
             # plain pointer arithmetic with a variable index may legally be null + 0
             nonzero = any(iv[0] == 'int' and iv[1] != 0 for it, iv in I['idx'])
-            if nonzero or len(I['idx']) > 1:
+            if d in self.spec_vals:
+                pass        # speculated address computation (clang hoisted `it + 1' above the test of `it'): not a dereference
+            elif nonzero or len(I['idx']) > 1:
                 self.nn(I['base'])
                 self.nonnull.add(d)
             elif I['base'][0] == 'local' and I['base'][1] in self.nonnull:
@@ -2249,6 +2262,11 @@ class FuncEmitter:
         base = name.split('.')
         kind = base[1]
         if kind in ('lifetime', 'dbg', 'experimental', 'invariant', 'donothing', 'prefetch', 'var'):
+            return
+        if kind == 'stacksave':
+            c.append('%s = 0;' % D)
+            return
+        if kind == 'stackrestore':
             return
         if kind == 'assume':
             c.append('VP_UB(%s, "UB: llvm.assume violated");' % av(0))
